@@ -123,6 +123,29 @@ def c15(tier, seed):
         if r.violated == "NotDone":
             rep.traces += ok
             rep.add_tlc(r, f"TLC trace validation: {len(lines)} events of {ok} runs explained by Threads.tla")
+            # controls: the binding is not vacuous - the first run's log with the broadcast event removed, and with
+            # the kind of the notification altered, must NOT be explainable
+            cut = [i for i, x in enumerate(lines) if x["ev"] == "Reset"]
+            first = lines[:cut[1]] if len(cut) > 1 else lines
+            variants = []
+            if any(x["ev"] == "Broadcast" for x in first):
+                i = next(i for i, x in enumerate(first) if x["ev"] == "Broadcast")
+                variants.append(("the broadcast event removed", first[:i] + first[i + 1:]))
+            if any(x["ev"] == "MainRecv" for x in first):
+                i = next(i for i, x in enumerate(first) if x["ev"] == "MainRecv")
+                flipped = dict(first[i], kind="panic" if first[i].get("kind") != "panic" else "terminate")
+                variants.append(("the kind of the death notification altered", first[:i] + [flipped] + first[i + 1:]))
+            for what, v in variants:
+                p2 = tr + ".ctl"
+                with open(p2, "w") as f:
+                    for x in v:
+                        f.write(json.dumps(x) + "\n")
+                rc_ = cb.tlc("ThreadsTrace", "ThreadsTrace.cfg", "thrtrace_ctl", workers=1, timeout=300, env={"TRACE": p2},
+                             java_opts=["-Dtlc2.tool.queue.IStateQueue=StateDeque"])
+                os.remove(p2)
+                if rc_.violated == "NotDone":
+                    raise ToolError(f"trace validation control: the event log with {what} is still explained by ThreadsTrace")
+                rep.notes.append(f"trace validation control: the log with {what} is not explainable, as it must")
             os.remove(tr)
         elif r.violated:
             rep.violation(f"trace-invariant-{r.violated}", f"invariant {r.violated} of Threads.tla is false in a state reached by the real run()", {"kind": "trace", "trace_file": tr, "tlc": r.trace_text()[-3000:]})
